@@ -75,6 +75,7 @@ func (n *LocalNode) Notify(predecessor chord.VNode) error {
 			n.predecessor = candidatePredecessor
 		}
 		n.predecessorMu.Unlock()
+		verifPoint("notify.applied", n)
 	}()
 
 	n.surrogateMu.RLock()
